@@ -953,9 +953,10 @@ func (obj *Package) DefLambda(name string, lam *Lambda, fc func(args List) Objec
 		obj.lambdas[name] = lam
 	}
 	if fi := obj.funcs[name]; fi != nil {
+		// An inherited function is redefined where it lives, its home
+		// package does not change.
 		fi.Doc = lam.Doc
 		fi.Create = fc
-		fi.Pkg = obj
 		fi.Kind = kind
 	} else {
 		fi := FuncInfo{
